@@ -205,6 +205,62 @@ def system_objects(ctx, n_systems):
                       lambda: {"mu": mu, "state": y, "dE_dt": D * nf, "minus_z_vz": -y[2] * y[5]}, mech)
 
 
+def interleaved_systems(ctx, n_groups):
+    """History class: several System objects with nearly equal (or all tiny) mass ratios alive in one process, their dynamical systems
+    first touched in one order and then evaluated in another.  Each system's field, Jacobian and variational system must be those of
+    its OWN mu (a memo shared between systems, keyed by names or by a rounded mu, makes a later system use an earlier one's)."""
+    from hiten import System
+    from hiten.system.orbits.base import GenericOrbit
+    rng = ctx.rng
+    groups = [[3.227e-7, 1.660e-7, 2.3e-9], [3.0034806e-6, 3.0404234e-6], [0.012150585609624, 0.012150585609624 * (1 + 3e-6), 0.01215058]]
+    while len(groups) < n_groups:
+        m = mu_log_uniform(rng, 1e-8, 0.49)
+        groups.append([m, m * (1 + 10.0 ** rng.uniform(-6, -3)), m * (1 - 10.0 ** rng.uniform(-6, -3))])
+    for gi, mus in enumerate(groups[:n_groups]):
+        if not ctx.mine(gi):
+            continue
+        systems = [System.from_mu(float(m)) for m in mus]
+        if gi % 2 == 0:        # also one system built from catalogue bodies next to a from_mu system of almost the same mass ratio
+            sb = System.from_bodies("earth", "moon") if gi % 4 == 0 else System.from_bodies("sun", "earth")
+            systems += [sb, System.from_mu(float(sb.mu) * (1 + 2e-6))]
+        # first touch in creation order ...
+        for sm in systems:
+            y0 = gen_state(rng, float(sm.mu), "generic")
+            sm.dynsys.rhs(0.0, y0), sm.jacobian_dynsys.rhs(0.0, y0), sm.var_dynsys.rhs(0.0, np.concatenate([np.eye(6).ravel(), y0]))
+        # ... evaluation in reverse order and once more in creation order
+        for sm in list(reversed(systems)) + systems:
+            mu = float(sm.mu)
+            ctx.case("interleaved_system", [gi, mu], nontrivial=True)
+            for cls in ("near_secondary", "spatial", "near_L"):
+                y = gen_state(rng, mu, cls)
+                # the observable must separate this system from its neighbours: require the neighbours' fields to differ measurably here
+                others = [float(o.mu) for o in systems if float(o.mu) != mu]
+                f_ref = ref.field(y, mu)
+                sep = min(np.linalg.norm(ref.field(y, m2) - f_ref) for m2 in others)
+                if sep <= 1e-9 * (1 + np.linalg.norm(f_ref)):
+                    ctx.skip("interleaved systems: neighbouring mass ratios not separable at this state")
+                    continue
+                f_lib = np.asarray(sm.dynsys.rhs(0.0, y))
+                wit = lambda: {"mu": mu, "alive_systems_mu": [float(o.mu) for o in systems], "state": y, "separation_from_neighbour": sep}
+                ctx.check(np.linalg.norm(f_lib - f_ref) <= 1e-11 * (1 + np.linalg.norm(f_ref)), "a:System.dynsys.rhs==ref [several systems alive]", wit)
+                F_lib, F_ref = np.asarray(sm.jacobian_dynsys.rhs(0.0, y)), ref.jac(y, mu)
+                ctx.check(np.abs(F_lib - F_ref).max() <= 1e-10 * (1 + np.abs(F_ref).max()), "b:System.jacobian_dynsys.rhs==dF [several systems alive]", wit)
+                Y = np.concatenate([rng.normal(size=36), y])
+                dY, dR = np.asarray(sm.var_dynsys.rhs(0.1, Y)), ref.var_field(Y, mu)
+                ctx.check(np.abs(dY - dR).max() <= 1e-10 * (1 + np.abs(dR).max()), "c:System.var_dynsys.rhs==(F Phi,f) [several systems alive]", wit)
+                pt = sm.get_libration_point(3)
+                # reported energy: equal to the reference energy of the system's OWN mu up to an additive constant (the property fixes the
+                # time derivative, not the zero level): the offset measured at two different states must agree
+                y2 = gen_state(rng, mu, "near_secondary")
+                off1 = float(GenericOrbit(pt, initial_state=y).energy) - ref.energy(y, mu)
+                off2 = float(GenericOrbit(pt, initial_state=y2).energy) - ref.energy(y2, mu)
+                sepE = min(abs((ref.energy(y, m2) - ref.energy(y, mu)) - (ref.energy(y2, m2) - ref.energy(y2, mu))) for m2 in others)
+                if sepE > 1e-8:
+                    ctx.stat("|energy offset(y1) - energy offset(y2)| [several systems alive]", abs(off1 - off2))
+                    ctx.check(abs(off1 - off2) <= 1e-11 * (1 + abs(ref.energy(y, mu)) + abs(ref.energy(y2, mu))),
+                              "e:orbit.energy == reference energy of the system's own mu up to a constant [several systems alive]", wit)
+
+
 def trajectories(ctx, n_traj):
     """(f) library energy along every propagated trajectory drifts no more than the reference integral does."""
     from hiten import System
@@ -288,6 +344,7 @@ def run(ctx):
     guarded(ctx, "oracle", oracle_selfcheck, ctx)
     guarded(ctx, "pointwise", pointwise, ctx, ctx.pick(3000, 120000))
     guarded(ctx, "objects", system_objects, ctx, ctx.pick(8, 48))
+    guarded(ctx, "interleaved", interleaved_systems, ctx, ctx.pick(4, 40))
     guarded(ctx, "trajectories", trajectories, ctx, ctx.pick(24, 240))
     if ctx.nshards == 1 or True:
         ctx.require("a:field==ref", 100)
@@ -295,3 +352,4 @@ def run(ctx):
         ctx.require("d:dE/dt==0[crtbp_energy]", 100)
         ctx.require("f:energy constant along propagated trajectory", 4)
         ctx.require("a:System.dynsys.rhs==ref", 6)
+        ctx.require("c:System.var_dynsys.rhs==(F Phi,f) [several systems alive]", 6)
